@@ -173,6 +173,37 @@ def klex_suite(label, kinds, defs, covers=(), configs=((),), configs_quick=None,
                                quick=(configs_quick is None or f in configs_quick)))
     return suites
 
+# ---------------------------------------------------------------------------------------------------
+# V-lex: (definition, code generator) pairs, from the measured table vx/vlex_costs.json (a pair that did not verify on the
+# unchanged tree within the budget is never scheduled - it is reported as not covered, not as a failure)
+
+def _vlex_costs():
+    p = _os.path.join(_ROOT, 'vx', 'vlex_costs.json')
+    return _json.load(open(p)) if _os.path.exists(p) else {}
+
+def vlex_select(spec, tier):
+    costs = _vlex_costs()
+    budget = spec.get('quick_s', 18) if tier == 'quick' else spec.get('thorough_s', 120)
+    out = []
+    for d in (spec['defs'] if tier == 'quick' else spec.get('defs_thorough', spec['defs'])):
+        for cg in spec.get('codegens', ('tailcall', 'state_machine')):
+            c = costs.get('%s/%s' % (d, cg))
+            if c and c.get('status') == 'ok' and (c.get('wall_s') or 1e9) <= budget:
+                out.append((d, cg))
+    return out
+
+def vlex_not_covered(spec):
+    costs = _vlex_costs()
+    return sorted('%s/%s' % (d, cg) for d in spec.get('defs_thorough', spec['defs']) for cg in spec.get('codegens', ('tailcall', 'state_machine'))
+                  if (costs.get('%s/%s' % (d, cg)) or {}).get('status') != 'ok')
+
+VLEX_ALL = ['B1', 'B2', 'B3', 'B4', 'B5', 'B6', 'B7', 'B8', 'E1', 'S1', 'S3', 'L1', 'I2', 'P2', 'P2T', 'M1B', 'M2B', 'O3', 'O3A', 'Q3',
+            'L2', 'I1', 'P1', 'P1T', 'Q2', 'U1', 'U2', 'E2']
+VLEX_NOTE = ('V-lex: the text logos_codegen::generate emits (obtained through /repo\'s logos-cli on every run) for the corpus definitions %s, '
+             'both code generators where the state-machine loop stays within the solver budget, is proved - for ALL inputs, no length bound - to satisfy the '
+             'trait-level contract LEX and the LexerInternal preconditions, incl. termination (decreases), no arithmetic overflow, no out-of-bounds table index. '
+             'str definitions are verified with `type Source = [u8]` (rewrite L6): everything except the char-boundary conjuncts.')
+
 SPEC_KINDS = ('spec', 'specc', 'ctx', 'ctxc', 'skel', 'skelc')
 BYTE_DEFS = ['B1', 'B2', 'B3', 'B4', 'B5', 'B6', 'B7', 'B8', 'E1']
 SKIP_DEFS = ['S1', 'S2', 'S3']
@@ -227,6 +258,7 @@ PLAN = {
         explanation='K-lex harnesses compare one next() of the real lexer with spec::expected_item; V-cg proves ByteClass::add_byte/to_table; V-src proves the tiling contract',
     ),
     'C02': dict(
+        vlex=dict(defs=['E1', 'E2', 'B1', 'L1', 'U1'], codegens=('tailcall',), canary_defs=['E1']),
         level='model_checking', engine='verus+kani',
         verus=[('v_src', BOTH)],
         twins=SRC_TWINS,
@@ -241,6 +273,7 @@ PLAN = {
         explanation='find_boundary / end_to_boundary contracts (V-src) + K-lex error-shaped corpus entries',
     ),
     'C03': dict(
+        vlex=dict(defs=VLEX_ALL, quick_s=18, thorough_s=150, canary_defs=['B1', 'S3']),
         level='model_checking', engine='verus+kani',
         verus=[('v_src', BOTH)],
         twins=SRC_TWINS,
@@ -270,6 +303,7 @@ PLAN = {
         explanation='wf invariant includes boundary(token_start/end); K-lex asserts is_boundary on every span end over valid UTF-8 inputs',
     ),
     'C05': dict(
+        vlex=dict(defs=['B5', 'B7', 'B8', 'B1', 'E1', 'S1'], defs_thorough=VLEX_ALL, canary_defs=['B5']),
         level='model_checking', engine='verus+kani',
         verus=[('v_src', BOTH)],
         twins=SRC_TWINS,
@@ -285,6 +319,7 @@ PLAN = {
         explanation='Source::read contract + Kani memory model on exactly sized buffers',
     ),
     'C06': dict(
+        vlex=dict(defs=['B1', 'B2', 'B4', 'B5', 'B8', 'S1', 'S3', 'Q3', 'E2', 'L1', 'U2'], defs_thorough=VLEX_ALL, canary_defs=['B2']),
         level='model_checking', engine='kani',
         kani=klex_suite('K-lex both code generators', SPEC_KINDS, ['B1', 'B2', 'B4', 'B5', 'B8', 'E1', 'S2', 'S3', 'K1', 'U1', 'Q2'],
                         covers=['token produced', 'error produced'], configs=((), ('state_machine_codegen',)), quick_per_def=9, quick_cost=25,
@@ -296,6 +331,7 @@ PLAN = {
         explanation='same spec, two feature sets',
     ),
     'C07': dict(
+        vlex=dict(defs=['Q2', 'Q3', 'B1', 'B2', 'E1', 'U1'], codegens=('tailcall',), canary_defs=['Q2']),
         level='model_checking', engine='verus+kani',
         verus=[('v_src', BOTH)],
         twins=SRC_TWINS,
@@ -358,6 +394,7 @@ PLAN = {
         explanation='construct contracts + K1/K2 corpus',
     ),
     'C14': dict(
+        vlex=dict(defs=['B1', 'B2'], codegens=('tailcall',), canary_defs=['B1']),
         level='proof',
         verus=[('v_src', BOTH)],
         twins=SRC_TWINS,
